@@ -191,6 +191,22 @@ theorem reported_wavelength_isotropic {R : Type} [Field R] [RealLike R] [FftLike
   · simp only; field_simp
   · simp only; rw [← hiso]; field_simp
 
+/-- **Scale invariance.** Multiplying every length (pixel scales, wavelength, focal length) by `k ≠ 0` leaves the FFT grid
+unchanged and multiplies the reported wavelength by `k`: grid, refusals and field do not depend on the length unit. -/
+theorem fft_scale_invariant {R : Type} [Field R] [RealLike R] [FftLike R]
+    (hminmul : ∀ k a b : R, FftLike.min (k * a) (k * b) = k * FftLike.min a b)
+    (k dx0 dx1 du0 du1 z wl : R) (os S0 S1 : Int) (hk : k ≠ 0) :
+    fftShape (k * dx0) (k * dx1) (k * du0) (k * du1) (k * z) (k * wl) os = fftShape dx0 dx1 du0 du1 z wl os ∧
+    propWavelength S0 S1 (k * dx0) (k * dx1) (k * du0) (k * du1) (k * z) os = k * propWavelength S0 S1 dx0 dx1 du0 du1 z os := by
+  constructor
+  · simp only [fftShape, Gen.fftAlphaCall, Gen.dftAlpha]
+    have e0 : k * dx0 * (k * du0) / (k * z * (k * wl) * RealLike.ofInt os) = dx0 * du0 / (z * wl * RealLike.ofInt os) := by field_simp
+    have e1 : k * dx1 * (k * du1) / (k * z * (k * wl) * RealLike.ofInt os) = dx1 * du1 / (z * wl * RealLike.ofInt os) := by field_simp
+    rw [e0, e1]
+  · simp only [propWavelength, Gen.fftWavelengths]
+    rw [← hminmul]
+    congr 1 <;> field_simp
+
 /-! ## The FFT path is the unitary DFT with alpha = 1/S, centred at floor(S/2), for even and odd grids -/
 section fftdft
 set_option linter.unusedSectionVars false
